@@ -68,9 +68,9 @@ def run(ctx):
     for f in prog.functions.values():
         for c in walk_no_nested(f.node):
             if isinstance(c, ast.Call) and prog.resolve_expr(c.func, f.module, f.cls, f) is ts:
-                for kw in c.keywords:
-                    if kw.arg == "case_sensitive" and not (isinstance(kw.value, ast.Constant) and kw.value.value is False):
-                        cons_bad.append((f, c))
+                csv_ = cg.arg(c, "case_sensitive")
+                if csv_ is not None and not (isinstance(csv_, ast.Constant) and csv_.value is False):
+                    cons_bad.append((f, c))
     ctx.check(default_ok and not cons_bad, "R3.1", ts.qualname, "case_sensitive default/constructions", loc(init, init.node),
               "the tag section is (or can be) constructed case-sensitive: spellings in another letter case no longer resolve",
               desc="tag section is case-insensitive by default and at every construction")
